@@ -11,7 +11,7 @@ from ..model import ClassRef
 
 LEVEL = 'other'
 EXPLANATION = (
-    "Static analysis of lang/parsing.py. (R6) Both parsers are folded end to end: PolishParser / StandardParser / ParseContext are rebuilt as MRO-bound classes whose methods are the repository's own definitions interpreted by the checker (nothing is imported or run by CPython), over the real parse tables, mock lexical classes with the real construction contracts, and a mutable and a frozen predicate store; on every well-formed sentence up to a size bound, every one-character mutation of those and every short string the outcome is a ParseError or a closed sentence (no free, vacuous or re-bound variable; one arity per predicate symbol), never another exception; the Polish parser agrees with an independent reader of the grammar. (R1) every explicit raise in the parser classes is a ParseError subclass or reviewed; constructor calls are wrapped or have a reviewed shape. (R2) store-API compatibility with an interprocedural isinstance guard. (R3) bind/check_bound/unbind folded over all small states. (R4) every while loop advances or exits. (R5) effect confinement. Decided on a bounded input language; totality over all strings and RecursionError are declined. (R7) the lexical constructors the parsers call are folded (lexfold, shared with C14.R1): their comparison key, which is the key of the shared construction cache, distinguishes every two different specs -- otherwise a later parse gets an earlier, different sentence back.")
+    "Static analysis of lang/parsing.py. (R6) Both parsers are folded end to end: PolishParser / StandardParser / ParseContext are rebuilt as MRO-bound classes whose methods are the repository's own definitions interpreted by the checker (nothing is imported or run by CPython), over the real parse tables, mock lexical classes with the real construction contracts, and a mutable and a frozen predicate store; on every well-formed sentence up to a size bound, every one-character mutation of those and every short string the outcome is a ParseError or a closed sentence (no free, vacuous or re-bound variable; one arity per predicate symbol), never another exception; the Polish parser agrees with an independent reader of the grammar. (R1) every explicit raise in the parser classes is a ParseError subclass or reviewed; constructor calls are wrapped or have a reviewed shape. (R2) store-API compatibility with an interprocedural isinstance guard. (R3) bind/check_bound/unbind folded over all small states. (R4) every while loop advances or exits. (R5) effect confinement. Decided on a bounded input language; totality over all strings and RecursionError are declined. (R7) the lexical constructors the parsers call are folded (lexfold, shared with C14.R1): their comparison key, which is the key of the shared construction cache, distinguishes every two different specs -- otherwise a later parse gets an earlier, different sentence back. R2's gate fold also hands the constructor an immutable store: it is kept as it is (not replaced by a mutable copy that would accept undeclared predicates); the isinstance guard is recognised by implication (any boolean form).")
 TRUSTED = ['CPython ast', 'sa.minieval', 'errors.py class hierarchy as parsed']
 ASSUMPTIONS = ['lexical constructors raise ValueError for out-of-range coordinates (decided for Predicate.__init__ / CoordsItem.__new__ by R9) and TypeError only for ill-typed arguments, which the parsers never pass']
 
@@ -285,11 +285,12 @@ def r2(ctx, rep):
         ps = _Og('parser', notation='N', defaults={})
         r = itg.safe(init, [ps], dict(predicates=arg))
         kept.append(getattr(ps, 'predicates', r))
+    keptnames = [('the given store' if k is given else 'the given immutable store' if k is frozen else 'a new mutable store' if isinstance(k, PredsM) else repr(k)) for k in kept]
     ok = all(isinstance(k, PBase) for k in kept) and kept[1] is given and kept[4] is frozen
     rep.instance(R2, ok=ok, nontrivial='gate')
     if not ok:
         rep.finding(R2, 'C13.R2/Parser.__init__/gate', m.loc(PAR, init), 'Parser.__init__',
-                    f'given None / a store / a tuple / a list / an immutable store the parser keeps {[('the given store' if k is given else 'the given immutable store' if k is frozen else 'a new mutable store' if isinstance(k, PredsM) else repr(k)) for k in kept]}: not always a predicate store (PredicatesBase); a given store, mutable or '
+                    f'given None / a store / a tuple / a list / an immutable store the parser keeps {keptnames}: not always a predicate store (PredicatesBase); a given store, mutable or '
                     f'immutable, must be kept as it is (an immutable store replaced by a mutable copy gets predicates auto-declared into it)')
     known_external = {'get': None}
     n = 0
